@@ -309,5 +309,8 @@ def run(rep, tier, seed):
     if n["hash_sites"] < 1:
         rep.add("C11|floor|hash-sites", "no hash iteration site found: the rule matched nothing (expected >= 1: "
                 "generate_specialize_impl constraints.keys())", "pdl-compiler")
+    if n["ambient_sites"] < 2:
+        rep.add("C11|floor|ambient-sites", f"only {n['ambient_sites']} ambient-input call sites matched (floor 2: the file read of "
+                f"parse_file and CARGO_MANIFEST_DIR in pdl-derive are the positive witnesses of the rule)", "pdl-compiler")
     if n["pipeline_sites"] < 8:
         rep.add("C11|floor|pipeline-sites", f"only {n['pipeline_sites']} pipeline sites (floor 8)", "pdlc/pdl-derive")
